@@ -518,3 +518,55 @@ M('R11-setter-no-curvature-guard', 'R11',
 M('R11-setter-wrong-sign', 'R11',
   [('lp.py', "        if isinstance(obj, Convex) and obj.sign == -1:\n            raise ValueError('Nonconvex objective function.')\n\n        self.obj = obj\n        self.sign = 1",
     "        if isinstance(obj, Convex) and obj.sign == 1:\n            raise ValueError('Nonconvex objective function.')\n\n        self.obj = obj\n        self.sign = 1")], 'lp.Model.min')
+
+# ---------------------------------------------------------------------------------------- R30 and round-2 rules
+M('R30-log-args-swapped', 'R30',
+  [('gcp.py', "                            exp_cone_constr = ExpConstr(constr.model,\n                                                        exprs[1], exprs[0], 1)",
+    "                            exp_cone_constr = ExpConstr(constr.model,\n                                                        exprs[0], exprs[1], 1)")], 'exp-cone roles for L')
+M('R30-msk-triple', 'R30',
+  [('msk_solver.py', "            M.constraint(x.pick([e[1], e[2], e[0]]), Domain.inPExpCone())", "            M.constraint(x.pick([e[0], e[1], e[2]]), Domain.inPExpCone())")],
+  'exp-cone triple order')
+M('R09-default-set-overrides', 'R09',
+  [('ro.py', "                if constr.support:\n                    rc_constrs = constr.le_to_rc()\n                else:\n                    rc_constrs = constr.le_to_rc(self.obj_support)",
+    "                rc_constrs = constr.le_to_rc(self.obj_support)")], 'ro.Model.do_math')
+M('R15-rollback-sum-sizes', 'R15',
+  [('gcp.py', "                self.last = self.vars[-1].first + self.vars[-1].size\n\n            more_exp = []", "                self.last = sum(var.size for var in self.vars)\n\n            more_exp = []")],
+  'aux rollback position')
+M('R21-bounds-skip-binaries', 'R21',
+  [('lp.py', "        for i in range(nvar):\n            string += '{} <= x{} <= {}\\n'.format(lb[i], i+1, ub[i])",
+    "        for i in range(nvar):\n            if self.vtype[i] == 'B':\n                continue\n            string += '{} <= x{} <= {}\\n'.format(lb[i], i+1, ub[i])")],
+  'Bounds section')
+M('R24-reshape-forwards-memo', 'R24',
+  [('lp.py', "            new_const = np.array([self.const]).reshape(shape)\n        return Affine(self.model, self.linear, new_const)", "            new_const = np.array([self.const]).reshape(shape)\n        return Affine(self.model, self.linear, new_const, self.sparray)")],
+  'sparray forwarded')
+M('R26-grb-unscattered-pi', 'R26',
+  [('grb_solver.py', "        pi = np.ones(formula.linear.shape[0]) * np.nan\n", "        pi = np.array(grb.getAttr('Pi', grb.getConstrs()))\n"),
+   ('grb_solver.py', "        pi[indices_eq] = c_eq.pi\n        pi[indices_ineq] = c_ineq.pi\n", "")], 'pi not scattered back')
+M('R27-events-as-series', 'R27',
+  [('lp.py', "        self.ambset.exp_constr_indices.append(list(indices))", "        self.ambset.exp_constr_indices.append(indices)")],
+  'exp_constr_indices element')
+M('R31-reader-layout', 'R31',
+  [('lp.py', "                indices = (self.ro_first + eindex*self.size +\n                           np.arange(self.size, dtype=int))", "                indices = (self.ro_first + eindex +\n                           np.arange(self.size, dtype=int))")],
+  '', error_ok=True)
+M('R31-writer-offset', 'R31',
+  [('dro.py', "            dvar.ro_first = count\n            count += dvar.size*len(dvar.event_adapt)", "            count += dvar.size*len(dvar.event_adapt)\n            dvar.ro_first = count")],
+  'ro_first recorded before')
+M('R31-writer-block-length', 'R31',
+  [('dro.py', "                start += size * len(dvar.event_adapt)\n                total_size += size", "                start += size\n                total_size += size")],
+  'running sums')
+M('R32-mass-of-first-scenario', 'R32',
+  [('dro.py', "                      p[indices].sum() * exp_support.const)", "                      p[indices[0]] * exp_support.const)")], '', error_ok=True)
+M('R32-mass-all-scenarios', 'R32',
+  [('dro.py', "                      p[indices].sum() * exp_support.const)", "                      p.sum() * exp_support.const)")], '', error_ok=True)
+M('R32-zip-swapped', 'R32',
+  [('dro.py', "        for econstr, indices in zip(self.exp_constr, self.exp_constr_indices):", "        for indices, econstr in zip(self.exp_constr, self.exp_constr_indices):")],
+  'mix_support')
+M('R32-primal-lifted-set', 'R32',
+  [('dro.py', "        mixed_support = ambset.mix_support(primal=False)", "        mixed_support = ambset.mix_support(primal=True)")], 'the dual of the lifted set')
+M('R32-beta-column', 'R32',
+  [('dro.py', "                left += var_exp_list[j][:num_rand] @ beta[:, j]", "                left += var_exp_list[j][:num_rand] @ beta[:, 0]")], 'event j')
+M('R32-alpha-scenario', 'R32',
+  [('dro.py', "                        right = alpha[s] + (z @ beta[:, event_indices]).sum()", "                        right = alpha[0] + (z @ beta[:, event_indices]).sum()")], 'scenario inequality')
+M('R32-sense-lost', 'R32',
+  [('dro.py', "            constr = LinConstr(affine.model, affine.linear, affine.const,\n                               exp_support.sense)", "            constr = LinConstr(affine.model, affine.linear, affine.const,\n                               np.zeros(affine.const.size))")],
+  'lifted rows keep the senses')
